@@ -27,7 +27,7 @@ where
     // same reader configuration as `ServerMsg::from_xml`; `data_xml` is the `<data>` element of a
     // `get-config` reply, which `DataReply` hands to the reader positioned after its start tag.
     let mut reader = NsReader::from_str(data_xml);
-    _ = reader.trim_text(true);
+    _ = reader.trim_text(true).expand_empty_elements(true);
     loop {
         match reader.read_resolved_event()? {
             (_, Event::Start(tag)) => break Policies::<T>::read_xml(&mut reader, &tag),
